@@ -39,6 +39,7 @@ type wireCase struct {
 type c10env struct {
 	scheme    string
 	cache     bool
+	primedPre obj
 	fetchable *hotstuff.Block
 	n, q      int
 	nodes     []*hx.Node
@@ -404,22 +405,39 @@ func (e *c10env) apply(c wireCase) (pan string) {
 	if from == int(e.r.ID) {
 		from = 1
 	}
+	// the peer id is what the connection metadata says: mostly the signer's, sometimes 0 or an id outside the configuration
+	claimed := from
+	switch e.rng.Intn(16) {
+	case 0:
+		claimed = 0
+	case 1:
+		claimed = e.n + 3
+	}
 	switch m["rpc"].(string) {
 	case "vote":
 		content := e.known.ToBytes()
 		if m["hash"].(string) == "fetchable" {
 			content = e.fetchable.ToBytes()
 		}
-		e.svc.Vote(ctxFrom(from), &hotstuffpb.PartialCert{Sig: e.sig(m["sig"].(string), content, from), Hash: e.hash(m["hash"].(string))})
+		e.svc.Vote(ctxFrom(claimed), &hotstuffpb.PartialCert{Sig: e.sig(m["sig"].(string), content, from), Hash: e.hash(m["hash"].(string))})
 	case "newview":
-		e.svc.NewView(ctxFrom(from), e.syncInfo(m["si"].(map[string]any), from))
+		e.svc.NewView(ctxFrom(claimed), e.syncInfo(m["si"].(map[string]any), from))
 	case "timeout":
 		v := e.view(m["view"].(string))
 		tm := &hotstuffpb.TimeoutMsg{View: v, SyncInfo: e.syncInfo(m["si"].(map[string]any), from), ViewSig: e.sig(m["viewsig"].(string), hotstuff.View(v).ToBytes(), from)}
 		back := hotstuffpb.TimeoutMsgFromProto(&hotstuffpb.TimeoutMsg{View: v, SyncInfo: tm.SyncInfo})
 		back.ID = hotstuff.ID(from)
 		tm.MsgSig = e.sig(m["msgsig"].(string), back.ToBytes(), from)
-		e.svc.Timeout(ctxFrom(from), tm)
+		if e.rng.Intn(2) == 0 {
+			// primed: the same sender's well-formed timeout for that view (both signatures good) has arrived just before -- a copy
+			// of a message that is already held is handled on other paths than a first message
+			twin := &hotstuffpb.TimeoutMsg{View: v, SyncInfo: tm.SyncInfo, ViewSig: e.sig("good1", hotstuff.View(v).ToBytes(), from),
+				MsgSig: e.sig("good1", back.ToBytes(), from)}
+			e.svc.Timeout(ctxFrom(claimed), twin)
+			e.r.Drain()
+			e.primedPre = e.proj() // the state "before" the message under test is the state after its well-formed twin
+		}
+		e.svc.Timeout(ctxFrom(claimed), tm)
 	case "propose":
 		bm := m["block"].(map[string]any)
 		p := &hotstuffpb.Proposal{AggQC: e.agg(m["agg"].(string), from)}
@@ -443,9 +461,9 @@ func (e *c10env) apply(c wireCase) (pan string) {
 			}
 			p.Block = b
 		}
-		e.svc.Propose(ctxFrom(from), p)
+		e.svc.Propose(ctxFrom(claimed), p)
 	case "fetch":
-		_, _ = e.svc.RequestBlock(ctxFrom(from), &hotstuffpb.BlockHash{Hash: e.hash(m["hash"].(string))})
+		_, _ = e.svc.RequestBlock(ctxFrom(claimed), &hotstuffpb.BlockHash{Hash: e.hash(m["hash"].(string))})
 	case "contribution":
 		// "cur": the view of the aggregation round the node is in (contributions for other views are ignored at once)
 		cur := uint64(e.r.VS.View())
@@ -553,7 +571,11 @@ func c10(args []string) error {
 			}
 			sinceNew++
 			pre := env.proj()
+			env.primedPre = nil
 			pan := env.apply(c)
+			if env.primedPre != nil {
+				pre = env.primedPre
+			}
 			post := pre
 			if pan == "" {
 				post = env.proj()
